@@ -25,7 +25,7 @@ if [ "$R0" = 0 ] && [ "$R1" = 1 ] && [ $OK = 1 ]; then
   /venv/bin/python - "$D/meta.json" "$N" "$P" "$HEAD" "$FILES" <<'PY'
 import json,sys
 p,n,pid,head,files=sys.argv[1:6]
-json.dump({"id":n,"property":pid,"origin":"fresh sub-agent given only the property record and a scratch worktree (round 2: told which mechanism round 1 had used)",
+json.dump({"id":n,"property":pid,"origin":"fresh sub-agent given only the property record and a scratch worktree (later rounds: told which mechanisms earlier rounds had used)",
  "base_commit":head,"files":files.split(),"change":"","needs":"",
  "confirmed":{"demo_exit_with_patch":1,"demo_exit_without_patch":0,"baseline_stable_pass_missing":0},
  "demonstration":"demo.py (run with PYTHONPATH=<tree>): exit 1 = property violated","detected_by":None},open(p,"w"),indent=1)
